@@ -53,6 +53,14 @@ def install(R: Registry):
                ensures=[("C09", "in_dom(self, value) and dynint(obj, self._private_name) == value", "on success the value read back is the value assigned")],
                raises={"ValueError": [("C09", "not in_dom(self, value)", "and on refusal nothing was written (frame)")]})
 
+    # lists of python values of ANY type (ints, floats and other objects mixed): refused unless every element is an int in range
+    R.define("pv_in_dom", "self: IntValidatorBase, v: PyVal", "pv_kind(v) == 0 and self._min <= pv_int(v) and pv_int(v) <= self._max")
+    R.contract(V + "IntValidatorBase.validate_many#pylist", tags="C09", params=dict(value="List[PyVal]"),
+               requires=["int_class(self)", "len(value) >= 1", "forall('i:Int', implies(0 <= i and i < len(value), pv_kind(value[i]) == 0 or pv_kind(value[i]) == 1 or pv_kind(value[i]) == 2))"],
+               ensures=[("C09", "forall('i:Int', implies(0 <= i and i < len(value), pv_in_dom(self, value[i])))",
+                         "a list of arbitrary python values is accepted only if EVERY element is an int in range (mixed lists included)")],
+               raises={"TypeError": [("C09", "exists('i:Int', 0 <= i and i < len(value) and pv_kind(value[i]) != 0)")],
+                       "ValueError": [("C09", "exists('i:Int', 0 <= i and i < len(value) and not pv_in_dom(self, value[i]))")]})
     # ------------------------------------------------------------------ floats
     R.contract(V + "FloatValidatorBase.validate_one#float32", tags="C09", params=dict(value="Float"), ctype_model="float32",
                ensures=[("C09", "not isinf(fp32(value))", "accepted only if the nearest binary32 value is finite (or NaN)")],
@@ -73,6 +81,14 @@ def install(R: Registry):
                requires=["len(value) >= 0"],
                ensures=[("C09", "forall('i:Int', implies(0 <= i and i < len(value), not isinf(value[i])))")],
                raises={"ValueError": [("C09", "exists('i:Int', 0 <= i and i < len(value) and isinf(value[i]))")]})
+    PV_REQ = ["len(value) >= 0", "forall('i:Int', implies(0 <= i and i < len(value), (pv_kind(value[i]) == 0 or pv_kind(value[i]) == 1 or pv_kind(value[i]) == 2) and "
+                                 "-(2**100) <= pv_int(value[i]) and pv_int(value[i]) <= 2**100))"]
+    for bits, ov in (("32", "isinf(fp32(pv_float(value[i])))"), ("64", "isinf(pv_float(value[i]))")):
+        R.contract(V + f"FloatValidatorBase.validate_many#pylist{bits}", tags="C09", params=dict(value="List[PyVal]"), ctype_model="float" + bits, requires=PV_REQ,
+                   ensures=[("C09", f"forall('i:Int', implies(0 <= i and i < len(value), pv_kind(value[i]) != 2 and implies(pv_kind(value[i]) == 1, not {ov})))",
+                             "a list of arbitrary python values is accepted only if EVERY element is a number that does not overflow (ints up to 2^100 never do)")],
+                   raises={"TypeError": [("C09", "exists('i:Int', 0 <= i and i < len(value) and pv_kind(value[i]) == 2)")],
+                           "ValueError": [("C09", f"exists('i:Int', 0 <= i and i < len(value) and pv_kind(value[i]) == 1 and {ov})")]})
     R.contract(V + "FloatValidatorBase.__set__#float32", tags="C09", params=dict(obj="MsgObj", value="Float"), ctype_model="float32",
                requires=["_VALIDATION_ENABLED"], modifies=["$dyn.float"],
                ensures=[("C09", "not isinf(fp32(value)) and fpeq(dynfloat(obj, self._private_name), value)", "the stored python value is the value assigned (ctypes rounds it to the nearest finite binary32 on the way into the buffer)")],
@@ -85,6 +101,13 @@ def install(R: Registry):
     for kind, ty in (("int", "Int"), ("none", "None"), ("float", "Float")):
         R.contract(V + f"String.validate_one#{kind}", tags="C09", params=dict(value=ty), requires=["self.len >= 2"],
                    ensures=[("C09", "False")], raises={"TypeError": [("C09", "True")]})
+    R.contract(V + "Byte.validate_many#pylist", tags="C09", params=dict(value="List[PyVal]"),
+               requires=["self._min == 0 and self._max == 255", "len(value) >= 1",
+                         "forall('i:Int', implies(0 <= i and i < len(value), pv_kind(value[i]) == 0 or pv_kind(value[i]) == 1 or pv_kind(value[i]) == 2))"],
+               ensures=[("C09", "forall('i:Int', implies(0 <= i and i < len(value), pv_kind(value[i]) == 0 and 0 <= pv_int(value[i]) and pv_int(value[i]) <= 255))",
+                         "a list of arbitrary python values is accepted as byte-array content only if EVERY element is an int in 0..255")],
+               raises={"TypeError": [("C09", "exists('i:Int', 0 <= i and i < len(value) and pv_kind(value[i]) != 0)")],
+                       "ValueError": [("C09", "exists('i:Int', 0 <= i and i < len(value) and not (pv_kind(value[i]) == 0 and 0 <= pv_int(value[i]) and pv_int(value[i]) <= 255))")]})
     R.contract(V + "String.__get__", tags="C03 C09", params=dict(obj="MsgObj", objtype="None"), returns="Str", ctype_model="string",
                ensures=[("C03 C09", "isascii(result)", "a string field read back is ASCII: the manager relies on this when it copies a client's name into its own messages")],
                raises={"UnicodeDecodeError": []})
@@ -98,8 +121,8 @@ def install(R: Registry):
 VALIDATOR_TARGETS = [V + k for k in (
     "disable_message_validation",
     "IntValidatorBase.validate_one#int", "IntValidatorBase.validate_one#bool", "IntValidatorBase.validate_one#float", "IntValidatorBase.validate_one#str",
-    "IntValidatorBase.validate_one#none", "IntValidatorBase.validate_many#intlist", "IntValidatorBase.validate_many#ctarray", "IntValidatorBase.__set__#int",
+    "IntValidatorBase.validate_one#none", "IntValidatorBase.validate_many#intlist", "IntValidatorBase.validate_many#ctarray", "IntValidatorBase.validate_many#pylist", "IntValidatorBase.__set__#int",
     "FloatValidatorBase.validate_one#float32", "FloatValidatorBase.validate_one#float64", "FloatValidatorBase.validate_one#str", "FloatValidatorBase.validate_one#none",
-    "FloatValidatorBase.validate_one#int", "FloatValidatorBase.validate_many#floatlist32", "FloatValidatorBase.validate_many#floatlist64", "FloatValidatorBase.__set__#float32",
+    "FloatValidatorBase.validate_one#int", "FloatValidatorBase.validate_many#floatlist32", "FloatValidatorBase.validate_many#floatlist64", "FloatValidatorBase.validate_many#pylist64", "FloatValidatorBase.__set__#float32",
     "String.validate_one#str", "String.validate_one#int", "String.validate_one#none", "String.validate_one#float", "String.__get__",
-    "Byte.validate_one#int", "Byte.validate_one#float", "Byte.validate_one#str", "Byte.validate_one#none")]
+    "Byte.validate_one#int", "Byte.validate_one#float", "Byte.validate_one#str", "Byte.validate_one#none", "Byte.validate_many#pylist")]
